@@ -193,6 +193,15 @@ def harness(tier, seed):
                          f"{nover} plans exceed Errors.upper_bound()={ub}; maximum observed {max_err}"))
         if len(samples) < 3:
             samples.append({**setting, "feasible_plans": int(nfeas), "max_errors": int(max_err), "plans": 12 ** days})
+    # a plan in which every pairing meets twice, once written as "both at home" and once as "both away": every count is
+    # right, only the roles are inconsistent - it is not a feasible schedule
+    yb = np.array([[2, -1, 4, -3], [4, 3, -2, -1], [-2, 1, -4, 3], [3, 4, 1, 2], [-4, -3, 2, 1], [-3, -4, -1, -2]], np.int8)
+    eb = int(count_errors(yb, 1, 3, 1, 3, 1, 6, np.full(6, 99, np.int8), np.full((4, 4), 99, np.int8)))
+    fb, _cb, _kb = spec_eval(yb, 1, 3, 1, 3, 1, 6, 2)
+    evals += 1
+    if (eb == 0) != bool(fb):
+        viol.append(("random/zero-iff-feasible", {"n": 4, "rounds": 2, "plan": yb.tolist(), "home_streak": [1, 3], "away_streak": [1, 3],
+                                                   "separation": [1, 6]}, f"errors={eb} feasible={fb}"))
     # random plans, also inconsistent ones, n in {4, 6, 8}, rounds in {1, 2, 3}
     nrand = 3000 if tier == "quick" else 40000
     for _ in range(nrand):
@@ -212,6 +221,16 @@ def harness(tier, seed):
             else:
                 for t in range(n):
                     y[d, t] = rng.randint(-n, n)
+        if pp is not None and 0.3 < mode < 0.5:
+            # keep who meets whom, but write some games with the same role on both sides (both "at home" or both "away")
+            for d in range(days):
+                for t in range(n):
+                    o = int(y[d, t])
+                    if o > 0 and rng.random() < 0.4:
+                        if rng.random() < 0.5:
+                            y[d, o - 1] = t + 1          # both at home
+                        else:
+                            y[d, t] = -o                 # both away
         if mode > 0.5 and mode < 0.6:           # sprinkle byes / self games into a consistent plan
             y[rng.randrange(days), rng.randrange(n)] = rng.choice([0, n, -n, 1])
         t1 = np.full(n * (n - 1) // 2, 99, np.int8)
